@@ -319,14 +319,16 @@ func (t *Header) Decode(d *Decoder) error {
 	}
 
 	epochMarkPointerFlag, err := d.ReadPointerFlag()
+	if err != nil {
+		return err
+	}
 	epochMarkPointerIsNil := epochMarkPointerFlag == 0
 	if epochMarkPointerIsNil {
 		cLog(Yellow, "EpochMark is nil")
+		t.EpochMark = nil
 	} else {
 		cLog(Yellow, "EpochMark is not nil")
-		if t.EpochMark == nil {
-			t.EpochMark = &EpochMark{}
-		}
+		t.EpochMark = &EpochMark{}
 
 		if err = t.EpochMark.Decode(d); err != nil {
 			return err
@@ -334,14 +336,16 @@ func (t *Header) Decode(d *Decoder) error {
 	}
 
 	ticketsMarkPointerFlag, err := d.ReadPointerFlag()
+	if err != nil {
+		return err
+	}
 	ticketsMarkPointerIsNil := ticketsMarkPointerFlag == 0
 	if ticketsMarkPointerIsNil {
 		cLog(Yellow, "TicketsMark is nil")
+		t.TicketsMark = nil
 	} else {
 		cLog(Yellow, "TicketsMark is not nil")
-		if t.TicketsMark == nil {
-			t.TicketsMark = &TicketsMark{}
-		}
+		t.TicketsMark = &TicketsMark{}
 
 		if err = t.TicketsMark.Decode(d); err != nil {
 			return err
